@@ -408,3 +408,53 @@ package aml
 //@   ensures window: len(p.pkgEndStack) > 0 && old(p.pkgEndStack[len(p.pkgEndStack)-2]) <= uint32(len(p.r.data)) ==> p.r.pkgEnd == old(p.pkgEndStack[len(p.pkgEndStack)-2])
 //@   ensures empty: len(p.pkgEndStack) == 0 ==> p.r.pkgEnd == old(p.r.pkgEnd)
 //@   ensures reader: wfD(&p.r) && sameStream(&p.r) && p.r.offset == old(p.r.offset)
+
+// ---- method invocations get exactly the declared number of arguments (C11, partial) -------------
+// These contracts prove only their explicit clauses: the tree passes change the whole tree
+// through calls whose effect is not tracked here (`modifies *`), so run-time safety of these
+// bodies and the preconditions of their callees are ASSUMED (see `partial`).
+// walkChild: result of the latest recursive call on a child; walkDone/walkRes: how the child walk
+// of the invocation that returns ended.
+//@ ghost walkChild parseResult
+//@ ghost walkDone bool
+//@ ghost walkRes parseResult
+
+// resolveMethodCalls: the name of a call placeholder is looked up from the placeholder's own
+// scope; when it names a method, the placeholder becomes a MethodCall that refers to that method
+// and is given exactly the number of arguments the method declares - bits [0:2] of the flags
+// byte, the method's second argument - taken from its own siblings and then from its parent's.
+// Every child is visited: the walk ends early only when it fails.
+//@ func (p *Parser) resolveMethodCalls(objIndex uint32) (res parseResult)
+//@   property C11
+//@   partial
+//@   concrete (*Parser).resolveMethodCalls
+//@   requires p != nil
+//@   modifies *, walkChild, walkDone
+//@   at after call resolveMethodCalls 1: ghost walkChild = result()
+//@   at call Find 1: assert lookup: arg(scopeIndex) == argObj.parentIndex && typeis(argObj.value, []byte) && arg(expr) == unbox(argObj.value, []byte)
+//@   at call ArgAt 1: assert flagsArg: arg(obj) == resolvedObj && arg(index) == 1 && resolvedObj.opcode == pOpMethod
+//@   at call attachSiblingsAsArgs 1: assert declared: arg(numArgs) == uint8(unbox(methodFlagsObj.value, uint64) & 7)
+//@   at call attachSiblingsAsArgs 1: assert siblings: arg(useParentSiblings) && arg(parentObj) == obj && arg(targetObj) == argObj
+//@   at call attachSiblingsAsArgs 1: assert call: argObj.opcode == pOpIntMethodCall && typeis(argObj.value, uint32) && unbox(argObj.value, uint32) == resolvedObj.index
+//@   at exit loop 1: ghost walkDone = argIndex == InvalidIndex
+//@   ensures visitsAll: res != parseResultFailed ==> walkDone
+//@   ensures result: res == parseResultOk || res == parseResultFailed
+
+// attachSiblingsAsArgs: each of the numArgs objects is taken in sibling order, first from the
+// target's own siblings and then (if allowed) from the parent's; it is detached from the object
+// that really is its parent - detach only repairs the child list of the object it is given - and
+// appended to the target. On success exactly numArgs objects have been moved: the loop ends
+// early only by failing.
+//@ func (p *Parser) attachSiblingsAsArgs(parentObj *Object, targetObj *Object, numArgs uint8, useParentSiblings bool) (res parseResult)
+//@   property C11 C12
+//@   partial
+//@   requires p != nil && p.objTree != nil && wfTree(p.objTree)
+//@   modifies *, walkDone
+//@   loop 1 (numArgs > 0) invariant wfTree(p.objTree)
+//@   at call ObjectAt 1: assert next: arg(index) == siblingIndex
+//@   at call detach 1: assert owner: arg(arg) == siblingObj && (arg(obj) == nil || arg(obj).index == siblingObj.parentIndex)
+//@   at call append 1: assert moved: arg(obj) == targetObj && arg(arg) == siblingObj
+//@   at exit loop 1: ghost walkDone = numArgs == 0
+//@   ensures count: res == parseResultOk ==> walkDone
+//@   ensures result: res == parseResultOk || res == parseResultFailed
+//@   ensures wf: wfTree(p.objTree)
